@@ -76,10 +76,10 @@ func (t *TaskExecutor[T]) Cancel(identifier T) (canceled bool) {
 		return false
 	}
 
-	queuedElement.Cancel()
 	t.queuedElements.Delete(identifier)
 
-	return true
+	// there is nothing to cancel if the queue dropped the task already (size bound, shutdown)
+	return queuedElement.cancelPending()
 }
 
 // endregion ///////////////////////////////////////////////////////////////////////////////////////////////////////////
